@@ -686,3 +686,35 @@ func (x *Hex) UnmarshalJSON(b []byte) error {
 	*x = out
 	return nil
 }
+
+// KnownRegion reports whether known_findings.json lists an unrepaired
+// finding of property prop whose excluded region is named region. Generators
+// use it to stay out of the region (and count what they skip) so that the
+// search continues behind the finding.
+func KnownRegion(prop, region string) bool {
+	regionsOnce.Do(func() {
+		b, err := os.ReadFile(filepath.Join(Root, "known_findings.json"))
+		if err != nil {
+			return
+		}
+		var f struct {
+			Findings []struct {
+				Status, Property, Region string
+			} `json:"findings"`
+		}
+		if json.Unmarshal(b, &f) != nil {
+			return
+		}
+		for _, x := range f.Findings {
+			if x.Status == "known" && x.Region != "" {
+				regions[x.Property+"/"+x.Region] = true
+			}
+		}
+	})
+	return regions[prop+"/"+region]
+}
+
+var (
+	regionsOnce sync.Once
+	regions     = map[string]bool{}
+)
